@@ -318,6 +318,80 @@ func (k checker) runLadders(mine func() bool) {
 			continue
 		}
 		k.sizeCase(n)
+		if n >= 4095 && n <= 1<<15+1 {
+			// the same arrays with the process limited to / given more processors than the job's default:
+			// work split by the processor count leaves another remainder for each value, and a cap on the
+			// number of workers only shows above it
+			for _, pr := range procsLadder {
+				c.WithProcs(pr, func() { k.sizeCase(n) })
+			}
+		}
 	}
+	c.Bound("size_ladder_processors", fmt.Sprintf("rungs 4095..32769 also on %v processors", procsLadder))
+	k.runAlmostSpecial(mine)
 	c.Bound("size_ladder", fmt.Sprintf("TransformArray/TransformInPlace/Mesh.ApplyTRS/Rotate/Translate/Scale on n points, n = 2^k-1, 2^k, 2^k+1, 3*2^(k-1)+3 for k=2..%d (largest %d), every element compared", maxK, sizes[len(sizes)-1]))
+}
+
+var procsLadder = []int{1, 3, 5, 7, 17, 24, 40, 64}
+
+// almost-special matrices: a fast path recognises a class of matrices by a cheap test (bottom row
+// 0 0 0 1, unit-length columns, orthogonal columns, unit determinant …).  This family satisfies some
+// of those tests and not the others: linear blocks whose columns (or rows) are drawn from a menu of
+// unit and non-unit vectors — every ordered triple with a non-zero determinant — with and without a
+// translation, under three bottom rows.  Judged by the determinant and inverse laws like every other
+// matrix, and by the product law against the reference product.
+func unitMenu() []V3 {
+	r2 := math.Sqrt(2)
+	return []V3{
+		v3(1, 0, 0), v3(0, 1, 0), v3(0, 0, 1), v3(-1, 0, 0), v3(0, 0, -1),
+		v3(0.6, 0.8, 0), v3(0.8, 0, -0.6), v3(0, -0.6, 0.8),
+		v3(1.0/3, 2.0/3, 2.0/3), v3(2.0/3, -2.0/3, 1.0/3), v3(2.0/7, 3.0/7, 6.0/7),
+		v3(1/r2, 1/r2, 0), v3(0.5, 0.5, 0), v3(0, 2, 0),
+	}
+}
+
+func (k checker) runAlmostSpecial(mine func() bool) {
+	menu := unitMenu()
+	trans := []V3{v3(0, 0, 0), v3(1, -2, 3)}
+	bottoms := [][4]float64{{0, 0, 0, 1}, {0, 0, 0, 2}, {0.5, 0, 0.25, 1}}
+	n := 0
+	for i, a := range menu {
+		for j, b := range menu {
+			if !mine() {
+				continue
+			}
+			for l, cc := range menu {
+				if i == j || j == l || i == l {
+					continue
+				}
+				cols := [3]V3{a, b, cc}
+				for _, t := range trans {
+					for _, bt := range bottoms {
+						for tr := 0; tr < 2; tr++ {
+							var m m16
+							for c := 0; c < 3; c++ {
+								x := [3]float64{cols[c].X(), cols[c].Y(), cols[c].Z()}
+								for r := 0; r < 3; r++ {
+									if tr == 0 {
+										m[4*r+c] = x[r]
+									} else {
+										m[4*c+r] = x[r]
+									}
+								}
+							}
+							m[3], m[7], m[11] = t.X(), t.Y(), t.Z()
+							m[12], m[13], m[14], m[15] = bt[0], bt[1], bt[2], bt[3]
+							if math.Abs(refDet(m)) < 1e-3 {
+								continue
+							}
+							n++
+							k.matInv(m, Case{Kind: "inv1", A: m[:]})
+							k.matPair(m, affineOf(quat{0, 0, 0, 1}, v3(2, 0, -1), v3(1, 2, 3)), "almost-special")
+						}
+					}
+				}
+			}
+		}
+	}
+	k.c.Bound("almost_special_matrices", fmt.Sprintf("linear blocks with columns / rows from %d unit and non-unit vectors (every ordered triple, |det| >= 1e-3) x %d translations x %d bottom rows", len(menu), len(trans), len(bottoms)))
 }
